@@ -50,3 +50,22 @@ func (e *LexerExpr) NFACons(ctx *Context) *mode.NFAComposite {
 	}
 	return nfaCons
 }
+
+// macroRefs appends the macros referenced directly by the expression to refs,
+// including the ones referenced from parenthesized sub-expressions. It is only
+// valid after the Check pass.
+func (e *LexerExpr) macroRefs(refs []*MacroRule) []*MacroRule {
+	for _, f := range e.Factors {
+		for _, tc := range f.Terms {
+			switch t := tc.Term.(type) {
+			case *LexerTermRef:
+				if t.refMacro != nil {
+					refs = append(refs, t.refMacro)
+				}
+			case *LexerExpr:
+				refs = t.macroRefs(refs)
+			}
+		}
+	}
+	return refs
+}
